@@ -63,7 +63,7 @@ def cases(tier, seed):
         out.append(dict(kind='layouts', cfg=cfg))
     for i in range(60 if tier == 'quick' else 3000):
         out.append(dict(kind='drag', cfg=rng.choice(cfgs[:4] + [dict(p=3, r=1), dict(p=3)]), sseed=rng.randrange(10 ** 9),
-                        updates=rng.choice((1, 2, 2, 3)), fork=True))
+                        updates=rng.choice((1, 2, 2, 3)), fork=True, graphfunc=(i % 4 == 3)))
     return out
 
 
@@ -378,6 +378,15 @@ def _run_layouts(desc, V):
     return claims
 
 
+class _Late:
+    """a subjects list that is produced anew whenever it is looked at (graph-function form)."""
+    def __init__(self, f):
+        self.f = f
+
+    def __iter__(self):
+        return iter(self.f())
+
+
 def _run_drag(desc, V):
     from kingdon.multivector import MultiVector
     alg = make_alg(desc['cfg'])
@@ -421,7 +430,15 @@ def _run_drag(desc, V):
     subjects += pts[1:] + [dep, [pts[0]]]
     other = alg.multivector(keys=(0,), values=[V.var('o')])          # not a point in PGA (grade 0): must stay untouched
     subjects.append(other)
-    g = alg.graph(*subjects)
+    if desc.get('graphfunc'):
+        # the single graph-function form (documented for animations): the function is evaluated again for every payload, so
+        # items its BODY derives from the points (not wrapped in callables of their own) follow a drag as well
+        static = list(subjects)
+        scene = lambda: static + [[pts[0] ^ pts[-1], ~pts[-1], 2 * pts[0]]]
+        g = alg.graph(scene)
+        subjects = _Late(scene)
+    else:
+        g = alg.graph(*subjects)
     k2i = dict(g.key2idx)
     idxs = list(g.draggable_points_idxs)
     # graph.js looks the points up in the DECODED subjects list (canvas.value[i]): owner of every top-level entry
@@ -476,7 +493,7 @@ def _run_drag(desc, V):
         for pi, p in enumerate(dragged):
             for j, k in enumerate(p.keys()):
                 claims.append(Eq(f'dragged[{u},{pi},{k}]', p.values()[j], newvals[pi][order.index(k)], 'drag|written-back'))
-        claims += _cmp_leaves(f'subjects-after[{u}]', leaves(decode(g.subjects, k2i)), expected_leaves(subjects, alg), 'drag|subjects-reevaluated')
+        claims += _cmp_leaves(f'subjects-after[{u}]', leaves(decode(g.subjects, k2i)), expected_leaves(list(subjects), alg), 'drag|subjects-reevaluated')
     # identity of the original objects and untouched non-draggables
     if any(a is not b for a, b in zip([owner[i] for i in idxs], dragged)):
         claims.append(Fail('identity', 'dragged subjects are no longer the original objects', 'drag|identity'))
